@@ -71,6 +71,27 @@ def run(cmd, timeout=600, env=None, stdin=None, cwd=None):
         return -999, so, se + "\n[TIMEOUT after %ds]" % timeout
 
 
+CRASH_CODES = (-6, -11, -8, -4, -7, 134, 139, 136, 132, 135)
+
+
+def crashed(rc):
+    """the harness process was killed by SIGABRT / SIGSEGV / SIGFPE / SIGILL / SIGBUS while running the real code"""
+    return rc in CRASH_CODES
+
+
+def harness_failed(v, rc, out, err, what, tag):
+    """Call when a harness returned non-zero.  A crash of the real code under the harness (library assertion -> abort, segfault) is a
+    VIOLATION (the code died while the property was being exercised); a sanitizer exit is a VIOLATION; anything else is a machinery error."""
+    tail = (err or "")[-2500:] + (out or "")[-500:]
+    if crashed(rc):
+        v.violation("%s: the process running the real code died with signal/exit %s (library assertion or crash): %s" % (what, rc, tail[-700:].replace("\n", " | ")), {"cmd": what, "rc": rc, "output_tail": tail}, tag=tag)
+        return True
+    if rc in (66, 67) or "ERROR: AddressSanitizer" in (err or "") or "runtime error:" in (err or ""):
+        v.violation("%s: sanitizer report: %s" % (what, tail[:1200].replace("\n", " | ")), {"cmd": what, "rc": rc, "output_tail": tail}, tag=tag)
+        return True
+    raise MachineryError("%s failed rc=%s: %s" % (what, rc, tail))
+
+
 # ----------------------------------------------------------------------------------------------
 # TLC
 
